@@ -654,9 +654,20 @@ def run(ctx):
 
     ctx.hyp(state_cases(0, 6), body, ctx.budget(6000, 400000), name="state-lists")
     ctx.hyp(state_cases(5, 6), body, ctx.budget(2000, 200000), name="long-lists")
+    from props import c13_sessions
+
+    c13_sessions.run(ctx)
 
 
 def replay(ctx, case):
+    if isinstance(case, dict) and case.get("part") == "sessions":
+        from props import c13_sessions
+
+        try:
+            c13_sessions.check(case)
+        except Violation as violation:
+            return [violation]
+        return []
     found = []
     try:
         check(case, load(), found)
